@@ -310,4 +310,92 @@ theorem C16_spill (d : Nat) (hd : 5 ≤ d) (m : List Entry) (hs : m.Pairwise (fu
   obtain ⟨t, h1, h2, h3⟩ := C17_bulk_load d hd (flatten m) f2
   exact ⟨t, h1, h2, by rw [h3, f1]⟩
 
+/-! ## strict lower bounds on the disk-backed backend, for any ordered key type -/
+
+section ExclusiveStart
+variable {α : Type} [DecidableEq α] (lt : α → α → Prop) [DecidableRel lt]
+
+theorem filter_congr' {β : Type} (p q : β → Bool) (l : List β) (h : ∀ a ∈ l, p a = q a) :
+    l.filter p = l.filter q := by
+  induction l with
+  | nil => rfl
+  | cons a l ih =>
+    simp only [List.filter_cons, h a (by simp)]
+    rw [ih (fun b hb => h b (by simp [hb]))]
+
+/-- **`col > v` on the disk-backed backend returns exactly the rows whose first key column is
+    greater than `v`**, for every ordered key type (no successor assumed), provided the "next
+    value" `w` the code starts the scan from is *tight*: greater than `v` with no stored first column
+    strictly between `v` and `w`.  (`smart_increment_value` = next representable value is tight;
+    `v + 1.0` is tight only on integer-valued keys — see the counterexample.) -/
+theorem C16_exclusive_start (d : Nat) (m : List Entry) (t : BTree) (hr : Related d m t)
+    (first : Int → α) (v w : α) (rw rv : Int)
+    (hirr : ∀ a, ¬ lt a a) (htr : ∀ a b c, lt a b → lt b c → lt a c) (hvw : lt v w)
+    (hrw : ∀ e ∈ m, rw ≤ e.1 ↔ (lt w (first e.1) ∨ w = first e.1))
+    (htight : ∀ e ∈ m, lt v (first e.1) → (lt w (first e.1) ∨ w = first e.1)) :
+    diskExclStart t first v (some rw) rv =
+      .ok ((m.filter (fun e => decide (lt v (first e.1)))).flatMap (·.2)) := by
+  obtain ⟨hw, rfl⟩ := hr
+  simp only [diskExclStart, C17_range_scan_entries d t (some rw) none true true hw, Except.map, postStart,
+    List.filter_filter]
+  congr 2
+  apply filter_congr'
+  intro e he
+  have h1 := hrw e he
+  have h2 := htight e he
+  by_cases hv : lt v (first e.1)
+  · have hne : first e.1 ≠ v := fun h => hirr v (h ▸ hv)
+    have : rw ≤ e.1 := h1.mpr (h2 hv)
+    simp [inRange, hv, hne, this]
+  · have : ¬ (rw ≤ e.1 ∧ first e.1 ≠ v) := by
+      rintro ⟨h3, _⟩
+      rcases h1.mp h3 with h4 | h4
+      · exact hv (htr _ _ _ hvw h4)
+      · exact hv (h4 ▸ hvw)
+    simp only [inRange, Bool.and_true, hv, decide_false]
+    by_cases h3 : rw ≤ e.1
+    · have : first e.1 = v := Classical.byContradiction (fun h => this ⟨h3, h⟩)
+      simp [h3, this]
+    · simp [h3]
+
+/-- the same when the start value has no next value (0.0, strings, …): the scan starts strictly
+    above the whole key `[v]`, which on multi-column keys still admits `[v, x]`; the re-check of the
+    first column removes those -/
+theorem C16_exclusive_start_no_successor (d : Nat) (m : List Entry) (t : BTree) (hr : Related d m t)
+    (first : Int → α) (v : α) (rv : Int) (hirr : ∀ a, ¬ lt a a)
+    (hrv1 : ∀ e ∈ m, lt v (first e.1) → rv < e.1)
+    (hrv2 : ∀ e ∈ m, rv < e.1 → (lt v (first e.1) ∨ v = first e.1)) :
+    diskExclStart t first v none rv =
+      .ok ((m.filter (fun e => decide (lt v (first e.1)))).flatMap (·.2)) := by
+  obtain ⟨hw, rfl⟩ := hr
+  simp only [diskExclStart, C17_range_scan_entries d t (some rv) none false true hw, Except.map, postStart,
+    List.filter_filter]
+  congr 2
+  apply filter_congr'
+  intro e he
+  by_cases hv : lt v (first e.1)
+  · have hne : first e.1 ≠ v := fun h => hirr v (h ▸ hv)
+    have := hrv1 e he hv
+    simp [inRange, hv, hne, this]
+  · simp only [inRange, Bool.and_true, hv, decide_false]
+    by_cases h3 : rv < e.1
+    · rcases hrv2 e he h3 with h4 | h4
+      · exact absurd h4 hv
+      · simp [h3, ← h4]
+    · simp [h3]
+
+end ExclusiveStart
+
+/-- **`v + 1.0` is not a next value on fractional keys**: keys 1.0, 1.25, 1.5, 2.0 (in quarters:
+    4, 5, 6, 8), `col > 1.0` scanned from `[2.0]` returns only the row of 2.0, while the rows of 1.25
+    and 1.5 satisfy the predicate (this is the seeded change the harness must catch) -/
+theorem C16_plus_one_counterexample :
+    (diskExclStart (α := Int) ⟨0, .leaf [(4, [0]), (5, [1]), (6, [2]), (8, [3])]⟩ id 4 (some 8) 4).toOption = some [3] ∧
+    ([(4, [0]), (5, [1]), (6, [2]), (8, [3])].filter (fun e : Entry => decide (4 < e.1))).flatMap (·.2) = [1, 2, 3] := by
+  decide
+
+/-- non-vacuity of `C16_exclusive_start`: the same index with the tight next value 5 (= 1.25) -/
+example : (diskExclStart (α := Int) ⟨0, .leaf [(4, [0]), (5, [1]), (6, [2]), (8, [3])]⟩ id 4 (some 5) 4).toOption = some [1, 2, 3] := by
+  decide
+
 end VibeProof.C16
